@@ -140,8 +140,43 @@ let op_history apex cls recs_s =
   let spec = String.concat " / " (("new " ^ show_state_spec a c []) :: go_s [] recs []) in
   model ^ " | " ^ spec
 
+(* ---- C21: V <apex> <class> <wide 0|1> <records>; issues printed with lower-cased names,
+   sorted, without duplicates, each followed by !e (error) or !w (warning) *)
+module V = ZoneValid
+module VS = ZoneValidS
+let show_issue_name tag n = Printf.sprintf "%s(%s)" tag (show_name (S.lc n))
+let show_issue = function
+  | V.MissingApexSoa -> "MissingApexSoa" | V.TooManyApexSoas -> "TooManyApexSoas"
+  | V.MissingApexNs -> "MissingApexNs"
+  | V.MissingNsAddress n -> show_issue_name "MissingNsAddress" n
+  | V.MissingMxAddress n -> show_issue_name "MissingMxAddress" n
+  | V.MissingGlue n -> show_issue_name "MissingGlue" n
+  | V.DuplicateCname n -> show_issue_name "DuplicateCname" n
+  | V.OtherRecordsAtCname n -> show_issue_name "OtherRecordsAtCname" n
+  | V.NsAtWildcard n -> show_issue_name "NsAtWildcard" n
+let show_issues sev l =
+  "ok " ^ (match uniq (Stdlib.List.map (fun i -> show_issue i ^ sev i) l) with [] -> "-" | l -> String.concat "," l)
+
+let op_validate apex cls wide recs_s =
+  let a = parse_name apex and c = n_of_int (int_of_string cls) in
+  let w = (wide = "1") in
+  let recs = parse_records recs_s in
+  let model = match Z.zone_build req (Z.zone_new a c w) recs with
+    | None -> "panic-in-build"
+    | Some z ->
+      (match V.zone_validate V.parse_name_simple z with
+       | Res.Ok l -> show_issues (fun i -> if V.issue_is_error i then "!e" else "!w") l
+       | Res.Err e -> "err " ^ show_err e
+       | Res.Panic -> "panic") in
+  let acc = S.accepted a c recs in
+  let spec = match VS.spec_validate req V.parse_name_simple a c w acc with
+    | Some l -> show_issues (fun i -> if VS.spec_is_warning i then "!w" else "!e") l
+    | None -> "err InvalidRdata" in
+  model ^ " | " ^ spec
+
 let () = run_lines (fun f ->
   match f with
   | [ "L"; apex; cls; recs; qn; qtys ] -> op_lookup apex cls recs qn qtys
   | [ "H"; apex; cls; recs ] -> op_history apex cls recs
+  | [ "V"; apex; cls; wide; recs ] -> op_validate apex cls wide recs
   | _ -> failwith "bad case line")
